@@ -23,6 +23,8 @@ Snap == [exists |-> exists, frames |-> frames, pend |-> pend, tseq |-> ticket.se
 
 \* a checked observation: in a diagnosis run a failing one is reported and masked
 Chk(name, cond) == IF cond THEN TRUE ELSE (Debug /\ PrintT(<<"MISMATCH", l, name>>))
+\* drift from a transcription where the property leaves the choice open: reported, never a violation
+Note(name, cond) == IF cond THEN TRUE ELSE PrintT(<<"DRIFT", l, name>>)
 
 Ev == Rec[l]
 Has(r, f) == f \in DOMAIN r
@@ -420,8 +422,17 @@ TCardPut == /\ IsEvent("card_put") /\ Read("card_put") /\ ResOk /\ Observed(Ev.o
 TCardGet ==
   /\ l <= Len(Rec) /\ Ev.ev \in {"card_current", "card_at"} /\ l' = l + 1 /\ exists # "broken" /\ Read(Ev.ev) /\ ResOk
   /\ LET a == Ev.args
-         w == IF Ev.ev = "card_current" THEN CT!GetCurrent(cmem, a.entity, a.slot) ELSE CT!GetAtTime(cmem, a.entity, a.slot, a.t) IN
-     /\ Chk("card.query", IF w = 0 THEN ~Ev.res.val.found ELSE Ev.res.val.found /\ SameCard(cmem[w], Ev.res.val.card))
+         w == IF Ev.ev = "card_current" THEN CT!GetCurrent(cmem, a.entity, a.slot) ELSE CT!GetAtTime(cmem, a.entity, a.slot, a.t)
+         ws == IF Ev.ev = "card_current" THEN CT!CurrentSet(cmem, a.entity, a.slot) ELSE CT!AtTimeSet(cmem, a.entity, a.slot, a.t)
+         sel == CT!Sel(cmem, a.entity, a.slot) IN
+     \* the answer is one of the cards that were put (C27: the card set is what was stored), of this entity and slot, and - beyond
+     \* what C27 says, but any memory of "current value" needs it - none with a later effective time was passed over
+     /\ Chk("card.query", IF ws = {} THEN ~Ev.res.val.found ELSE Ev.res.val.found /\ \E i \in ws : SameCard(cmem[i], Ev.res.val.card))
+     \* which of several cards with the same effective time wins is not part of C27: compared with the transcription as drift only
+     /\ Note("card.tie", w = 0 \/ ~Ev.res.val.found \/ SameCard(cmem[w], Ev.res.val.card))
+     \* C27: at or beyond the latest card of the slot the answer at time t is the current one
+     /\ Chk("card.latest", (Ev.ev = "card_at" /\ Has(Ev.res.val, "current") /\ (\A i \in sel : cmem[i].eff <= a.t)) =>
+                              Ev.res.val.current = (IF Ev.res.val.found THEN Ev.res.val.card.id ELSE -1))
      \* C27 stated directly on the real answer
      /\ Chk("card.temporal", Ev.res.val.found => /\ Ev.res.val.card.rel # "retracts"
                                                  /\ (Ev.ev = "card_at" => Ev.res.val.card.eff <= a.t))
